@@ -428,7 +428,9 @@ def check_case(case):
     for label in sfx:
         if C.by_label[label] not in low:
             res["absent"].append(label)
-    diagnosed = len(diag) != len(diag0)
+    # "rejected with a diagnostic": the multiset of diagnostic kinds (level + start of the message) differs from the canary-only rendering
+    dk = lambda ds: sorted((d[0], d[-1][:20]) for d in ds)
+    diagnosed = dk(diag) != dk(diag0)
     norm0 = {p: p for p in files0}
     by_norm = {}
     for p in files:
@@ -628,6 +630,7 @@ def run(run, tier, replay=None):
     run.extra["slots_emitted"] = len(table["emitted_slots"])
     run.extra["slots_absent_from_output"] = table["absent_slots"]
     run.extra["unreached_fields"] = table["unreached_fields"]
+    run.extra["fields_by_site"] = table.get("fields_by_site", {})
     rep_cases = rep_strs = None
     if replay:
         vs = json.load(open(replay))["violations"]
